@@ -80,13 +80,15 @@ type world struct {
 	gw, gi, repeat, retention time.Duration
 	srs                       []bool
 	limit                     int // MaxNumberOfAggregationGroups (0 = unlimited)
+	inh                       string // inhibition rules "s>t.s>t" (source id, target id) or "-"
+	mute, active              string // minute-of-day range "a-b" of the route's mute / active time interval, or "-"
 
 	nots     []*fakeNotifier
 	alerts   *mem.Alerts
 	sil      *silence.Silences
 	log      *nflog.Log
 	disp     *dispatch.Dispatcher
-	inh      *inhibit.Inhibitor
+	inhr     *inhibit.Inhibitor
 	cancel   context.CancelFunc
 	silIDs   map[int]string
 	pipeline notify.Stage
@@ -283,14 +285,46 @@ func (w *world) start() {
 func (w *world) startDispatcher() {
 	logger := promslog.NewNopLogger()
 	rec := eventrecorder.NopRecorder()
-	yml := fmt.Sprintf("route:\n  receiver: r\n  group_by: [g]\n  group_wait: %dms\n  group_interval: %dms\n  repeat_interval: %dms\nreceivers:\n- name: r\n",
+	yml := fmt.Sprintf("route:\n  receiver: r\n  group_by: [g]\n  group_wait: %dms\n  group_interval: %dms\n  repeat_interval: %dms\n",
 		w.gw.Milliseconds(), w.gi.Milliseconds(), w.repeat.Milliseconds())
+	// the root route cannot carry time intervals: with a mute / active interval every alert goes through one child route
+	hhmm := func(r string, i int) string {
+		m, _ := strconv.Atoi(strings.Split(r, "-")[i])
+		return fmt.Sprintf("'%02d:%02d'", m/60, m%60)
+	}
+	tiYml := ""
+	if w.mute != "" && w.mute != "-" || w.active != "" && w.active != "-" {
+		yml += "  routes:\n  - matchers: [ alertname = A ]\n"
+		if w.mute != "" && w.mute != "-" {
+			yml += "    mute_time_intervals: [m]\n"
+			tiYml += fmt.Sprintf("- name: m\n  time_intervals:\n  - times:\n    - start_time: %s\n      end_time: %s\n", hhmm(w.mute, 0), hhmm(w.mute, 1))
+		}
+		if w.active != "" && w.active != "-" {
+			yml += "    active_time_intervals: [a]\n"
+			tiYml += fmt.Sprintf("- name: a\n  time_intervals:\n  - times:\n    - start_time: %s\n      end_time: %s\n", hhmm(w.active, 0), hhmm(w.active, 1))
+		}
+	}
+	yml += "receivers:\n- name: r\n"
+	if tiYml != "" {
+		yml += "time_intervals:\n" + tiYml
+	}
+	if w.inh != "" && w.inh != "-" {
+		yml += "inhibit_rules:\n"
+		for _, r := range strings.Split(w.inh, ".") {
+			st := strings.Split(r, ">")
+			yml += fmt.Sprintf("- source_matchers: [ id = %s ]\n  target_matchers: [ id = %s ]\n", st[0], st[1])
+		}
+	}
 	conf, err := config.Load(yml)
 	if err != nil {
-		panic(err)
+		panic(err.Error() + "\n" + yml)
+	}
+	tis := make(map[string][]timeinterval.TimeInterval)
+	for _, ti := range conf.TimeIntervals {
+		tis[ti.Name] = ti.TimeIntervals
 	}
 	route := dispatch.NewRoute(conf.Route, nil)
-	w.inh = inhibit.NewInhibitor(w.alerts, nil, logger, rec)
+	w.inhr = inhibit.NewInhibitor(w.alerts, conf.InhibitRules, logger, rec)
 	silencer := silence.NewSilencer(w.sil, logger, rec)
 	var ints []notify.Integration
 	for i, s := range w.srs {
@@ -299,7 +333,7 @@ func (w *world) startDispatcher() {
 	gm := marker.NewGroupMarker()
 	pbld := notify.NewPipelineBuilder(prometheus.NewRegistry(), featurecontrol.NoopFlags{}, rec)
 	pipe := pbld.New(map[string][]notify.Integration{"r": ints}, func() time.Duration { return 0 },
-		w.inh, silencer, timeinterval.NewIntervener(nil), gm, w.log, nil)
+		w.inhr, silencer, timeinterval.NewIntervener(tis), gm, w.log, nil)
 	timeout := func(d time.Duration) time.Duration {
 		if d < notify.MinTimeout {
 			d = notify.MinTimeout
@@ -307,8 +341,8 @@ func (w *world) startDispatcher() {
 		return d
 	}
 	w.disp = dispatch.NewDispatcher(w.alerts, route, recStage{w, pipe}, gm, timeout, maintenanceInterval, groupLimit(w.limit), logger, rec, nil, nil)
-	go w.inh.Run()
-	w.inh.WaitForLoading()
+	go w.inhr.Run()
+	w.inhr.WaitForLoading()
 	go w.disp.Run(time.Now())
 	w.disp.WaitForLoading()
 	synctest.Wait()
@@ -316,7 +350,7 @@ func (w *world) startDispatcher() {
 
 func (w *world) stopDispatcher() {
 	w.disp.Stop()
-	w.inh.Stop()
+	w.inhr.Stop()
 	synctest.Wait()
 }
 
@@ -487,6 +521,12 @@ func runCase(t *testing.T, tr *hx.Trace, id int, r *rand.Rand, script []string) 
 					w.retention = time.Duration(hx.Atoi64(kv[1]))
 				case "limit":
 					w.limit, _ = strconv.Atoi(kv[1])
+				case "inh":
+					w.inh = kv[1]
+				case "mute":
+					w.mute = kv[1]
+				case "active":
+					w.active = kv[1]
 				case "sr":
 					for _, c := range kv[1] {
 						w.srs = append(w.srs, c == '1')
@@ -516,7 +556,21 @@ func runCase(t *testing.T, tr *hx.Trace, id int, r *rand.Rand, script []string) 
 			// the aggregation-group limit: with two possible groups a limit of 2 or 3 never binds in a correct
 			// dispatcher (the counter follows the map); a limit of 1 makes the second group wait for the first to go
 			w.limit = hx.Pick(r, []int{0, 0, 1, 2, 2, 3})
-			header = fmt.Sprintf("case %d gw=%d gi=%d repeat=%d retention=%d limit=%d sr=%s", id, int64(w.gw), int64(w.gi), int64(w.repeat), int64(w.retention), w.limit, srs)
+			// suppression other than silences: inhibition rules between the four alerts (within a group, across groups,
+			// chains), a mute and/or an active time interval of the route on the minute grid the case runs over
+			w.inh, w.mute, w.active = "-", "-", "-"
+			if r.IntN(3) == 0 {
+				w.inh = hx.Pick(r, []string{"1>2", "1>2.3>4", "1>3", "1>2.2>1", "1>2.2>3", "4>1.4>2.4>3"})
+			}
+			if r.IntN(4) == 0 {
+				a := 1 + r.IntN(8)
+				w.mute = fmt.Sprintf("%d-%d", a, a+1+r.IntN(5))
+			}
+			if r.IntN(6) == 0 {
+				a := r.IntN(4)
+				w.active = fmt.Sprintf("%d-%d", a, a+3+r.IntN(12))
+			}
+			header = fmt.Sprintf("case %d gw=%d gi=%d repeat=%d retention=%d limit=%d sr=%s inh=%s mute=%s active=%s", id, int64(w.gw), int64(w.gi), int64(w.repeat), int64(w.retention), w.limit, srs, w.inh, w.mute, w.active)
 		}
 		for i := range w.srs {
 			w.nots = append(w.nots, &fakeNotifier{w: w, idx: i, mode: "ok"})
